@@ -152,8 +152,13 @@ fn ev_arm(e: &Expr) -> Result<String, String> {
                     return Err("guard in `match path.parent()`".into());
                 }
                 let p = squash(&arm.pat);
-                if p == "Some(parent)" {
-                    with = Some(vec_which(&arm.body)?);
+                let some_binder = p.strip_prefix("Some(").and_then(|r| r.strip_suffix(')')).map_or(false, |b| b == "parent" || b.starts_with('_'));
+                if some_binder {
+                    let v = vec_which(&arm.body)?;
+                    if p != "Some(parent)" && v.contains(&"parent") {
+                        return Err("`parent` used but not bound by `Some(parent)`".into());
+                    }
+                    with = Some(v);
                 } else if p == "None" {
                     let v = vec_which(&arm.body)?;
                     if v.contains(&"parent") {
